@@ -36,6 +36,9 @@ pub fn wide_alphabet() -> Vec<T> {
         v.push(T::Bin(s));
     }
     v.push(T::Lit("\"s\""));
+    // string literals whose text is a parenthesis: they are values, not parentheses
+    v.push(T::Lit("\"(\""));
+    v.push(T::Lit("\")\""));
     v.push(T::Lit("2.5"));
     v.push(T::Ident("b"));
     v
@@ -96,6 +99,13 @@ fn render_compact(ts: &[T]) -> String {
 
 fn check_seq(ts: &[T], ctxs: &[HCtx], st: &mut Stats) {
     check_rendered(ts, render(ts), ctxs, st);
+    // comments are not tokens: a parenthesis inside one changes nothing
+    if ts.len() <= 4 {
+        let plain = render(ts);
+        for decorated in [format!("/* ( */ {}", plain), format!("{} /* ) */", plain), format!("{} // (", plain), format!("//)\n{}", plain)] {
+            check_rendered(ts, decorated, ctxs, st);
+        }
+    }
     // the same token sequence written without spaces, if the reference lexer still reads the same tokens
     // (a sign directly in front of a number, operators glued together, ...)
     if !ts.is_empty() && ts.len() <= 6 {
@@ -167,6 +177,24 @@ fn check_rendered(ts: &[T], src: String, ctxs: &[HCtx], st: &mut Stats) {
                         st.count("info/ill-formed-arity-correct-tree");
                     }
                     for c in ctxs {
+                        // the shared-context walker first, then the mutable one on a clone
+                        let rs = guarded(|| t.eval_with_context(c));
+                        st.evaluations += 1;
+                        match rs {
+                            Err(p) => {
+                                st.violation(mk("panic", "Ok or Err", format!("panic at {}: {}", p.location, p.message)));
+                                return;
+                            },
+                            Ok(Ok(v)) => {
+                                st.violation(mk(
+                                    "ill-formed-evaluates",
+                                    "precompilation or evaluation fails",
+                                    format!("tree {} evaluates to {:?} through eval_with_context (shared context)", nt.show(), v),
+                                ));
+                                return;
+                            },
+                            Ok(Err(_)) => {},
+                        }
                         let mut c = c.clone();
                         let r = guarded(|| t.eval_with_context_mut(&mut c));
                         st.evaluations += 1;
@@ -344,7 +372,7 @@ pub fn run(cfg: &Cfg) -> Report {
     Report {
         property: ID,
         level: "model_checking",
-        rule: format!("depth-first search over every token sequence of length <= {n_rep} over the 12-token class alphabet `1 a + - ! = += ( ) , ; true` and of length <= {n_wide} over the 34-token alphabet with every operator; a state is a token prefix, a transition appends one token, every state is fed to the real tokenizer/tree builder (and, if it precompiles although ill-formed, evaluated in 5 generous contexts). Plus 27 scaling families (a missing or surplus parenthesis, a juxtaposition or a dangling operator at the end of or deep inside a long well-formed input) at every size 1..20 and up to 129 / 1..40 and up to 400. Non-trivial = classified unbalanced or ill-formed by the recogniser; each sequence is enumerated exactly once, so the count is of distinct sequences"),
+        rule: format!("depth-first search over every token sequence of length <= {n_rep} over the 12-token class alphabet `1 a + - ! = += ( ) , ; true` and of length <= {n_wide} over the 36-token alphabet with every operator and string literals spelling a parenthesis; sequences of <= 4 tokens also with a comment containing a parenthesis before or after them; a state is a token prefix, a transition appends one token, every state is fed to the real tokenizer/tree builder (and, if it precompiles although ill-formed, evaluated in 5 generous contexts through the shared and the mutable walker). Plus 27 scaling families (a missing or surplus parenthesis, a juxtaposition or a dangling operator at the end of or deep inside a long well-formed input) at every size 1..20 and up to 129 / 1..40 and up to 400. Non-trivial = classified unbalanced or ill-formed by the recogniser; each sequence is enumerated exactly once, so the count is of distinct sequences"),
         nontrivial_set: "counter:nontrivial-distinct",
         exhaustive: true,
         bound_completed: format!("length {n_rep} (class alphabet), {n_wide} (wide alphabet)"),
